@@ -295,14 +295,32 @@ def _setcount_rule(chk, prog):
     for unit, fname, kind in (("array.c", "janet_array_setcount", "array"), ("buffer.c", "janet_buffer_setcount", "buffer")):
         fn = prog.need_func(fname, unit)
         chk.analysed(fn)
+        from jv.linear import linear
         fill_nodes = set()
+        oldvars = set(x.name for x in fn.nodes if x.k == "vardecl" and x.kids and strip_casts(x.kids[0]).k == "mem"
+                      and strip_casts(x.kids[0]).field == "count")
+
+        def is_old(e):
+            e = strip_casts(e)
+            return (e.k == "mem" and e.field == "count") or (is_ref(e) and e.name in oldvars)
         for n in fn.nodes:
+            # for (i = <old count>; i < count; i++) data[i] = nil
             if n.k == "for" and n.kids[1] is not None:
                 stores = [x for x in n.kids[3].walk() if x.k == "asg"]
-                if len(stores) == 1 and stores[0].kids[0].k == "sub" and wraps(stores[0].kids[1], "janet_wrap_nil"):
-                    fill_nodes.add(n.kids[1].id)
-            if n.k == "call" and n.callee == "memset" and any(x.k == "mem" and x.field == "data" for x in n.args[0].walk()):
-                fill_nodes.add(n.id)
+                init = [x for x in (n.kids[0].walk() if n.kids[0] is not None else []) if (x.k == "asg" and x.op == "=") or (x.k == "vardecl" and x.kids)]
+                cond = strip_casts(n.kids[1])
+                if len(stores) == 1 and stores[0].kids[0].k == "sub" and wraps(stores[0].kids[1], "janet_wrap_nil") and init:
+                    start = init[0].kids[1] if init[0].k == "asg" else init[0].kids[0]
+                    if is_old(start) and cond.k == "bin" and cond.op == "<" and is_ref(strip_casts(cond.kids[1]), "count"):
+                        fill_nodes.add(n.kids[1].id)
+            # memset(data + <old count>, 0, count - <old count>)
+            if n.k == "call" and n.callee == "memset" and len(n.args) == 3 and any(x.k == "mem" and x.field == "data" for x in n.args[0].walk()):
+                a0 = strip_casts(n.args[0])
+                a2 = linear(n.args[2])
+                if a0.k == "bin" and a0.op == "+" and is_old(a0.kids[1]) and n.args[1].v == 0 and a2 is not None:
+                    off = strip_casts(a0.kids[1]).text()
+                    if a2[1] == 0 and a2[0].get("count") == 1 and a2[0].get(off) == -1 and len(a2[0]) == 2:
+                        fill_nodes.add(n.id)
 
         def transfer(st, n):
             if n.id in fill_nodes:
@@ -316,10 +334,11 @@ def _setcount_rule(chk, prog):
             if c is None or c[2] is None:
                 return st
             l, op, r = strip_casts(c[0]), c[1], strip_casts(c[2])
-            if op == ">" and is_ref(l, "count") and r.k == "mem" and r.field == "count":
-                return st | frozenset(["growing"])
-            if op == "<" and is_ref(r, "count") and l.k == "mem" and l.field == "count":
-                return st | frozenset(["growing"])
+            # count <= old count on this edge: nothing new is exposed
+            if op == "<=" and is_ref(l, "count") and r.k == "mem" and r.field == "count":
+                return st | frozenset(["notgrow"])
+            if op == ">=" and is_ref(r, "count") and l.k == "mem" and l.field == "count":
+                return st | frozenset(["notgrow"])
             return st
         IN, OUT, T = flow.forward_paths(fn, frozenset(), transfer, edge)
         found = False
@@ -328,12 +347,12 @@ def _setcount_rule(chk, prog):
                 if n.k == "asg" and n.op == "=" and n.kids[0].k == "mem" and n.kids[0].field == "count" and is_ref(strip_casts(n.kids[1]), "count"):
                     found = True
                     chk.instance(rule)
-                    if all(("growing" not in s) or ("filled" in s) for s in S):
+                    if all(("notgrow" in s) or ("filled" in s) for s in S):
                         chk.ok(rule, "%s: new slots filled before count is raised" % fname)
                     else:
                         chk.violation(rule, unit, fname, "fill", n.loc,
-                                      "%s raises count on the growing path without filling the newly exposed slots: values left behind "
-                                      "by an earlier shrink (or uninitialised memory) become elements" % fname)
+                                      "%s can raise count without having filled exactly the slots between the old and the new count (nil / zero from "
+                                      "the OLD COUNT, not from the old capacity): values left behind by an earlier shrink become elements" % fname)
                 S = T(S, n)
         if not found:
             raise AnalysisBroken("%s: store of count not found" % fname)
